@@ -110,6 +110,10 @@ func (e *Exec) Generate() (err error) {
 		e.assignsAny = spec.AssignsAny
 		for _, as := range spec.Assigns {
 			se := &specEnv{e: e, st: st, old: st, vars: vars, bound: map[string]Value{}, where: "assigns"}
+			if call, ok := as.Expr.(*SCall); ok && call.Fun == "reach" && len(call.Args) == 1 {
+				e.assignsReach = append(e.assignsReach, se.eval(call.Args[0]))
+				continue
+			}
 			for _, gl := range se.evalLocs(as.Expr) {
 				e.assigns = append(e.assigns, gl.loc)
 			}
@@ -139,7 +143,7 @@ func (e *Exec) Generate() (err error) {
 		for _, en := range spec.Ensures {
 			t := e.evalSpecBool(en, rvars, r.st, e.entry, "ensures")
 			lbl := clauseLabel(en)
-			o := &Obligation{Func: e.fnName, Kind: "post", Label: fmt.Sprintf("%s@ret%d", lbl, i), Guard: r.st.guard, Goal: t, Facts: r.st.facts, InFunc: fn.String()}
+			o := &Obligation{Func: e.fnName, Kind: "post", Label: fmt.Sprintf("%s@ret%d", lbl, i), Guard: r.st.guard, Goal: t, Facts: r.st.facts, InFunc: fn.String(), Results: r.vals}
 			o.Pos = e.Prog.Fset.Position(r.pos)
 			o.Cands = append(o.Cands, e.cands...)
 			if !t.IsTrue() {
@@ -508,7 +512,14 @@ func (e *Exec) EmitMode(o *Obligation, strict bool) []*smt.Term {
 	}
 	q := &qelim{c: c, skolem: map[int][]*smt.Term{}, apps: map[string][]*smt.Term{}, bmemo: map[int]bool{}, strict: strict}
 	seen := map[*smt.Term]bool{}
-	for _, x := range append(append(append([]*smt.Term{}, o.Cands...), e.cands...), extCands...) {
+	var small []*smt.Term
+	if e.SmallLen > 0 {
+		// replay search: the index range is tiny, instantiate it completely
+		for i := uint64(0); i < e.SmallLen; i++ {
+			small = append(small, c.BVC(i, 64))
+		}
+	}
+	for _, x := range append(append(append(append([]*smt.Term{}, o.Cands...), e.cands...), extCands...), small...) {
 		if !seen[x] && (nodes[x.ID] || x.Op != "sym") {
 			seen[x] = true
 			q.cands = append(q.cands, x)
@@ -764,4 +775,20 @@ func sameShape(a, b *smt.Term, depth int) bool {
 		}
 	}
 	return true
+}
+
+// ScriptFor renders the strict query of one obligation.
+func (e *Exec) ScriptFor(o *Obligation) string {
+	asserts := e.emitLocked(o, true)
+	if asserts == nil {
+		return ""
+	}
+	logic := "QF_UFBV"
+	for _, a := range asserts {
+		if smt.HasQuant(a) {
+			logic = "ALL"
+			break
+		}
+	}
+	return e.scriptLocked(asserts, logic)
 }
